@@ -143,6 +143,9 @@ type State struct {
 	Clock   *Term
 	ClockN  int
 	Mutex   map[int]bool // ghost held bits by object id
+	LockEp  map[int]int  // hold episode counter per mutex (incremented by every Lock)
+	RLocked map[int]bool // mutexes currently held in read mode (RLock): they do not protect writes
+	MapLook map[int]map[[2]int]bool // guarded map object -> (mutex, episode) pairs under which it was looked up
 	Log     []string
 	Spec    bool // speculative (if-conversion) execution: anything needing the solver aborts
 	Acc         map[accKey][]accRec // shared-access log (lockset.go); copy-on-write
@@ -189,6 +192,28 @@ func (st *State) clone() *State {
 	n.Mutex = make(map[int]bool, len(st.Mutex))
 	for k, v := range st.Mutex {
 		n.Mutex[k] = v
+	}
+	if st.RLocked != nil {
+		n.RLocked = make(map[int]bool, len(st.RLocked))
+		for k, v := range st.RLocked {
+			n.RLocked[k] = v
+		}
+	}
+	if st.LockEp != nil {
+		n.LockEp = make(map[int]int, len(st.LockEp))
+		for k, v := range st.LockEp {
+			n.LockEp[k] = v
+		}
+	}
+	if st.MapLook != nil {
+		n.MapLook = make(map[int]map[[2]int]bool, len(st.MapLook))
+		for k, v := range st.MapLook {
+			m := make(map[[2]int]bool, len(v))
+			for kk := range v {
+				m[kk] = true
+			}
+			n.MapLook[k] = m
+		}
 	}
 	n.Frames = make([]*Frame, len(st.Frames))
 	for i, f := range st.Frames {
